@@ -25,7 +25,7 @@ def run(ctx):
         if p.endswith(".ops"):
             res = fw.corr(ctx, "lockup", 0, extra_args=["-replay", os.path.join(CORPUS, p)])
             fw.report_corr(ctx, "lockup[%s]" % p, res, feats)
-    res = fw.corr(ctx, "lockup", 160 if ctx.thorough() else 40)
+    res = fw.corr(ctx, "lockup", 1200 if ctx.thorough() else 40)
     fw.report_corr(ctx, "lockup", res, feats)
     if res:
         st = res["stats"]
